@@ -28,6 +28,7 @@ type SchedSpec struct {
 	StallFor int   `json:"stall_for"` // number of scheduling decisions
 	LowPrio  int   `json:"low_prio"`  // task id only run when nothing else can, -1 none
 	MeanGap  int64 `json:"mean_gap,omitempty"`
+	Points   []int64 `json:"points,omitempty"` // the exact global yield indices drawn (informational; replay uses the schedule)
 }
 
 type Violation struct {
@@ -99,6 +100,9 @@ const simOpYieldCap = 4 * maxBaselineYields
 // ---- planning ----
 
 type Tier struct {
+	Extra     map[string]int // additional focused rounds for small families that the property names explicitly
+	Rounds    int            // focused private rounds over the whole catalogue
+	Reps      int // repetitions of each catalogue entry per task in the focused private runs
 	Name      string
 	MaxTasks  int
 	Faults    bool
@@ -108,17 +112,75 @@ type Tier struct {
 }
 
 var Tiers = map[string]Tier{
-	"quick":    {Name: "quick", MaxTasks: 8, Faults: true, ChunkSize: 12, NShared: 24, NRecycle: 24},
-	"thorough": {Name: "thorough", MaxTasks: 64, Faults: true, ChunkSize: 6, NShared: 96, NRecycle: 96},
+	"quick":    {Name: "quick", Extra: map[string]int{"sec": 12, "roundtrip": 8, "hist": 4, "fn": 1}, Rounds: 1, Reps: 6, MaxTasks: 8, Faults: true, ChunkSize: 1, NShared: 24, NRecycle: 24},
+	"thorough": {Name: "thorough", Extra: map[string]int{"sec": 120, "roundtrip": 40, "hist": 20, "fn": 8, "accessors": 4}, Rounds: 4, Reps: 8, MaxTasks: 64, Faults: true, ChunkSize: 1, NShared: 96, NRecycle: 96},
 }
 
 // NumFocused is the number of focused runs of a tier (they come first).
 func NumFocused(t Tier) int {
-	n := (len(Cat.Entries) + t.ChunkSize - 1) / t.ChunkSize
-	return n + t.NShared + t.NRecycle
+	return len(focusList(t)) + t.NShared + t.NRecycle
+}
+
+var focusCache = map[string][]int{}
+
+// focusList: catalogue entry index of every focused private run, in order:
+// Rounds passes over the whole catalogue, then the extra passes per family.
+func focusList(t Tier) []int {
+	if l, ok := focusCache[t.Name]; ok {
+		return l
+	}
+	var l []int
+	for r := 0; r < t.Rounds; r++ {
+		for i := range Cat.Entries {
+			l = append(l, i)
+		}
+	}
+	for _, fam := range PrivateFams {
+		for r := 0; r < t.Extra[fam]; r++ {
+			for i := range Cat.Entries {
+				if Cat.Entries[i].Fam == fam {
+					l = append(l, i)
+				}
+			}
+		}
+	}
+	focusCache[t.Name] = l
+	return l
 }
 
 var ks = []int{1, 2, 3, 5, 10, 50, 500}
+
+// seedDraw hands out operation seeds for one run: fresh ones, or - with the
+// run's sharing probability - one of a few pooled seeds, optionally perturbed,
+// so that different tasks (and repeated operations of one task) work on equal
+// or near-equal argument VALUES held in distinct objects.
+type seedDraw struct {
+	r      *Rng
+	pool   []uint64
+	pShare int
+	pVar   int
+}
+
+func newSeedDraw(r *Rng, pShare int) *seedDraw {
+	d := &seedDraw{r: r, pShare: pShare, pVar: 35}
+	for i := 0; i < 2+r.Intn(3); i++ {
+		d.pool = append(d.pool, r.U64())
+	}
+	return d
+}
+
+func (d *seedDraw) apply(e OpSpec) OpSpec {
+	e.Var = 0
+	if d.r.Chance(d.pShare) {
+		e.Seed = d.pool[d.r.Intn(len(d.pool))]
+		if d.r.Chance(d.pVar) {
+			e.Var = d.r.U64() | 1
+		}
+	} else {
+		e.Seed = d.r.U64()
+	}
+	return e
+}
 
 func PlanRun(seed, index uint64, tierName string) *Plan {
 	t := Tiers[tierName]
@@ -126,25 +188,26 @@ func PlanRun(seed, index uint64, tierName string) *Plan {
 	r := NewRng(rs)
 	p := &Plan{Property: "C19", Seed: seed, Index: index, RunSeed: rs, Tier: tierName}
 	p.Sched.Stall, p.Sched.LowPrio = -1, -1
-	nPriv := (len(Cat.Entries) + t.ChunkSize - 1) / t.ChunkSize
+	fl := focusList(t)
+	nPriv := len(fl)
 	switch {
 	case int(index) < nPriv:
+		// one run per catalogue entry and round: few tasks, the same operation many
+		// times, arguments drawn from a small pool of (partly perturbed) seeds
 		p.Kind, p.Mode = "focused", "private"
-		lo := int(index) * t.ChunkSize
-		hi := lo + t.ChunkSize
-		if hi > len(Cat.Entries) {
-			hi = len(Cat.Entries)
-		}
-		chunk := Cat.Entries[lo:hi]
-		for task := 0; task < 3; task++ {
+		chunk := Cat.Entries[fl[index] : fl[index]+1]
+		sd := newSeedDraw(r, []int{45, 70, 85}[r.Intn(3)])
+		ntask := 2 + r.Intn(3)
+		for task := 0; task < ntask; task++ {
 			var ops []OpSpec
-			for i := range chunk {
-				e := chunk[i]
-				if task == 2 {
-					e = chunk[len(chunk)-1-i]
+			for rep := 0; rep < t.Reps; rep++ {
+				for i := range chunk {
+					e := chunk[i]
+					if task == 2 {
+						e = chunk[len(chunk)-1-i]
+					}
+					ops = append(ops, sd.apply(e))
 				}
-				e.Seed = r.U64()
-				ops = append(ops, e)
 			}
 			p.Tasks = append(p.Tasks, ops)
 		}
@@ -206,10 +269,22 @@ func planPrivate(p *Plan, r *Rng, n int) {
 	if n > 16 {
 		per = 1 + r.Intn(4)
 	}
-	draw := func() OpSpec {
+	sd := newSeedDraw(r, []int{0, 40, 75}[r.Intn(3)])
+	// narrow runs: few distinct operation names, so that tasks really meet in the same code
+	var names []OpSpec
+	for i := 0; i < 1+r.Intn(4); i++ {
 		f := fams[r.Intn(len(fams))]
-		names := Cat.ByFam[f]
-		return OpSpec{Fam: f, Name: names[r.Intn(len(names))], Seed: r.U64()}
+		ns := Cat.ByFam[f]
+		names = append(names, OpSpec{Fam: f, Name: ns[r.Intn(len(ns))]})
+	}
+	narrow := r.Chance(40)
+	draw := func() OpSpec {
+		if narrow {
+			return sd.apply(names[r.Intn(len(names))])
+		}
+		f := fams[r.Intn(len(fams))]
+		ns := Cat.ByFam[f]
+		return sd.apply(OpSpec{Fam: f, Name: ns[r.Intn(len(ns))]})
 	}
 	mirror := r.Bool()
 	var first []OpSpec
@@ -220,9 +295,7 @@ func planPrivate(p *Plan, r *Rng, n int) {
 		var ops []OpSpec
 		for i := 0; i < per; i++ {
 			if mirror {
-				e := first[i]
-				e.Seed = r.U64()
-				ops = append(ops, e)
+				ops = append(ops, sd.apply(first[i]))
 			} else {
 				ops = append(ops, draw())
 			}
@@ -465,6 +538,7 @@ func ExecRun(p *Plan) *Record {
 				}
 				sort.Slice(pts, func(i, j int) bool { return pts[i] < pts[j] })
 				cfg.SwitchAt = pts
+				p.Sched.Points = pts
 			} else {
 				cfg.MeanGap = total/int64(p.Sched.K+1) + 1
 				p.Sched.MeanGap = cfg.MeanGap
